@@ -237,6 +237,8 @@ class Session:
             elif fault == "garbage":
                 return http_response(200, b"\x06\x01", "application/pairing+tlv8"), False
             items, shared, acc_pub = hap.pv_m2(ident, eph_seed, ios_pub, **kw)
+            if callable(fault):
+                items = fault(items)
             self.pv = (shared, acc_pub, ios_pub)
             return tlv(items), False
         if st == b"\x03" and self.pv:
